@@ -1,0 +1,14 @@
+"""Verification hooks (inactive unless the environment variable MAGPYLIB_VERIF is set).
+
+`point(name, **info)` is called at named points of the field computation. A verification
+harness may install a tracer (called with the point name and the information given) to
+record the phase, and may let the tracer raise to emulate a failure at that point.
+Without a tracer the call does nothing.
+"""
+tracer = None
+
+
+def point(name, **info):
+    """report that the computation reached the named point"""
+    if tracer is not None:
+        tracer(name, info)
